@@ -143,8 +143,17 @@ Clauses(e) ==
 \* from_code itself raised on a compiled code object
 FromCodeFailed(e) == << <<"P01.from_code", FALSE>> >>
 
+\* an event too large for TLC's sequences (tables of 65 535 / 65 536 entries): the harness decided the clauses with
+\* dis + PyCode_Addr2Line (wk/encode.direct_event); they are only named here
+Direct(e) == << <<"P03.terminates", ~e.timeout>>, <<"P03.succeeds", e.timeout \/ e.ok0>>,
+                <<"P03.readable", e.ok0 => e.readable>>,
+                <<"P03.direct_count", e.readable => e.count>>,
+                <<"P03.direct_operands", e.count => e.operands>>,
+                <<"P03.direct_jumps", e.count => e.jumps>>,
+                <<"P03.direct_lines", e.count => e.lines>> >>
+
 Failing(e) ==
-    LET cs == IF e.kind = "fromcode_fail" THEN FromCodeFailed(e) ELSE Clauses(e)
+    LET cs == IF e.kind = "fromcode_fail" THEN FromCodeFailed(e) ELSE IF e.kind = "direct" THEN Direct(e) ELSE Clauses(e)
     IN SelectSeq([i \in DOMAIN cs |-> IF cs[i][2] THEN "" ELSE cs[i][1]], LAMBDA x: x # "")
 
 Init == l = 1
